@@ -1,4 +1,5 @@
 import Mainchain.Lemmas.Chain
+import Mainchain.Lemmas.Signer
 /-
 Fine-grained reachability: every state of every run is reached from the genesis state through
 *elementary* steps (one message-server operation, one ante effect, one begin-block sub-step, a
@@ -8,7 +9,8 @@ counter has wrapped yet") are attached to the source state of each elementary st
 namespace Mainchain
 
 inductive FineStep (s s' : State) : Prop where
-  | leaf (wall : Nat) (h : LeafStep wall s s')
+  | leaf (wall : Nat) (m : Msg) (r : Resp) (hl : m.isLeaf = true) (hg : GrantsOK s) (hsig : m.SignedOK)
+      (h : execMsg wall s m = .ok (s', r))
   | ante (tx : Tx) (h : AnteEffect s tx s')
   | time (t : Int) (ht : s.time ≤ t) (hs : s' = { s with time := t })
   | complete (id : Nat) (x : EB) (h : EB.completeOne { ent := s.ent, bank := s.bank } s.nowSec isBlocked id = .ok x)
@@ -27,24 +29,186 @@ theorem FinePath.trans {a b c : State} (h1 : FinePath a b) (h2 : FinePath b c) :
 
 theorem FinePath.single {a b : State} (h : FineStep a b) : FinePath a b := .cons a b b h (.refl b)
 
-theorem deliverTx_fine (wall : Nat) (s : State) (tx : Tx) (order : List String) :
-    FinePath s (deliverTx order wall s tx).1 :=
-  deliverTx_rel wall FinePath .refl (fun _ _ _ => FinePath.trans)
-    (fun s m s' r hl h => .single (.leaf wall (leaf_step wall s s' m r hl h)))
-    order
-    (fun s tx s' h => ante_rel FinePath .refl (fun _ _ _ => FinePath.trans) tx
-      (fun a b he => .single (.ante tx he)) order .deliver s s' h)
-    s tx
+/-- the module-operation view of a leaf step -/
+theorem FineStep.leafStep {s s' : State} {wall : Nat} {m : Msg} {r : Resp} (hl : m.isLeaf = true)
+    (h : execMsg wall s m = .ok (s', r)) : LeafStep wall s s' := leaf_step wall s s' m r hl h
 
-theorem checkTx_fine (s : State) (tx : Tx) (order : List String) : FinePath s (checkTx order s tx).1 :=
-  checkTx_rel FinePath .refl order
-    (fun s tx s' h => ante_rel FinePath .refl (fun _ _ _ => FinePath.trans) tx
-      (fun a b he => .single (.ante tx he)) order .check s s' h)
-    s tx
+theorem setReg_grants (s : State) (k : RegKind) (r : RegState) : (s.setReg k r).grants = s.grants := by
+  cases k <;> rfl
 
-theorem govExec_fine (wall : Nat) (s : State) (m : Msg) : FinePath s (govExec wall s m).1 :=
-  govExec_rel wall FinePath .refl (fun _ _ _ => FinePath.trans)
-    (fun s m s' r hl h => .single (.leaf wall (leaf_step wall s s' m r hl h))) m s
+/-- only authz messages touch the grant table -/
+theorem leaf_grants_eq (wall : Nat) (s s' : State) (m : Msg) (r : Resp)
+    (h : execMsg wall s m = .ok (s', r)) :
+    (∃ g e k, m = .authzGrant g e k) ∨ (∃ g e k, m = .authzRevoke g e k) ∨ (∃ g ms, m = .authzExec g ms) ∨
+    s'.grants = s.grants := by
+  cases m with
+  | authzGrant g e k => exact Or.inl ⟨g, e, k, rfl⟩
+  | authzRevoke g e k => exact Or.inr (Or.inl ⟨g, e, k, rfl⟩)
+  | authzExec g ms => exact Or.inr (Or.inr (Or.inl ⟨g, ms, rfl⟩))
+  | _ =>
+    right; right; right
+    simp only [execMsg, bind_eq_ok, pure_eq_ok, Prod.mk.injEq] at h
+    first
+      | (obtain ⟨_, _, rfl, _⟩ := h; first | rfl | exact setReg_grants _ _ _)
+      | (obtain ⟨_, _, _, _, rfl, _⟩ := h; first | rfl | exact setReg_grants _ _ _)
+      | (obtain ⟨_, _, _, _, _, _, rfl, _⟩ := h; first | rfl | exact setReg_grants _ _ _)
+      | (obtain ⟨_, _, _, _, _, _, _, _, rfl, _⟩ := h; first | rfl | exact setReg_grants _ _ _)
+
+/-- a leaf step keeps the grants invariant: new grants are given by the (authorised) signer -/
+theorem leaf_grantsOK (wall : Nat) (s s' : State) (m : Msg) (r : Resp) (hl : m.isLeaf = true) (hg : GrantsOK s)
+    (hsig : m.SignedOK) (h : execMsg wall s m = .ok (s', r)) : GrantsOK s' := by
+  rcases leaf_grants_eq wall s s' m r h with ⟨g, e, kind, rfl⟩ | ⟨g, e, kind, rfl⟩ | ⟨g, ms, rfl⟩ | heq
+  · simp only [execMsg, bind_eq_ok, pure_eq_ok, Prod.mk.injEq, decodeM_eq_ok] at h
+    obtain ⟨ga, hga, ea, _, rfl, _⟩ := h
+    obtain ⟨a, ha, hpa⟩ := hsig
+    simp only [Msg.signer, signerTok_authzGrant, Option.bind_some] at ha
+    rw [hga] at ha; cases ha
+    intro g' e' k' hmem
+    simp only at hmem
+    split at hmem
+    · exact hg g' e' k' hmem
+    · simp only [List.mem_append, List.mem_singleton, Prod.mk.injEq] at hmem
+      rcases hmem with hmem | ⟨rfl, _, _⟩
+      · exact hg g' e' k' hmem
+      · exact hpa
+  · simp only [execMsg, bind_eq_ok, pure_eq_ok, Prod.mk.injEq] at h
+    obtain ⟨ga, _, ea, _, _, _, rfl, _⟩ := h
+    intro g' e' k' hmem
+    exact hg g' e' k' (List.mem_filter.mp hmem).1
+  · simp [Msg.isLeaf] at hl
+  · intro g e k hm; rw [heq] at hm; exact hg g e k hm
+
+theorem anteEffect_grants (s s' : State) (tx : Tx) (h : AnteEffect s tx s') : s'.grants = s.grants := by
+  cases h with
+  | none hs => subst hs; rfl
+  | unlock _ _ _ _ _ _ hs => subst hs; rfl
+  | deduct _ _ _ hs => subst hs; rfl
+
+/-- if the ante chain of the repository's decorator order succeeds, every required signer is an
+address somebody holds a key for (`SetPubKey` is in the chain: `decide`d on the regenerated order) -/
+theorem ante_signers_user (mode : Mode) (s s1 : State) (tx : Tx)
+    (h : ante Facts.anteOrder mode s tx = .ok s1) : tx.required.all isUserAddr = true := by
+  have hmem : "SetPubKey" ∈ Facts.anteOrder := by decide
+  have key : ∀ (order : List String) (a b : State), "SetPubKey" ∈ order →
+      order.foldlM (anteStepM mode tx) a = .ok b → tx.required.all isUserAddr = true := by
+    intro order
+    induction order with
+    | nil => intro a b hm; simp at hm
+    | cons n ns ih =>
+      intro a b hm h
+      simp only [List.foldlM_cons, bind_eq_ok] at h
+      obtain ⟨a1, h1, h2⟩ := h
+      rcases List.mem_cons.mp hm with he | hm'
+      · subst he
+        simp only [anteStepM, anteStep, stepSetPubKey, bind_eq_ok, require_eq_ok] at h1
+        obtain ⟨_, _, _, hu, _⟩ := h1
+        exact hu
+      · exact ih a1 b hm' h2
+  exact key Facts.anteOrder s s1 hmem h
+
+theorem mem_required (tx : Tx) (m : Msg) (a : Addr) (hm : m ∈ tx.msgs) (ha : m.signer = some a) : a ∈ tx.required := by
+  unfold Tx.required
+  have hmem : a ∈ tx.msgs.filterMap Msg.signer := List.mem_filterMap.mpr ⟨m, hm, ha⟩
+  generalize tx.msgs.filterMap Msg.signer = l at hmem
+  have key : ∀ (l acc : List Addr), (a ∈ l ∨ a ∈ acc) →
+      a ∈ l.foldl (fun acc a => if acc.contains a then acc else acc ++ [a]) acc := by
+    intro l
+    induction l with
+    | nil => intro acc h; simpa using h
+    | cons x xs ih =>
+      intro acc h
+      simp only [List.foldl_cons]
+      apply ih
+      rcases h with h | h
+      · rcases List.mem_cons.mp h with he | h'
+        · subst he
+          right
+          split
+          · rename_i hc; simpa using hc
+          · simp
+        · exact Or.inl h'
+      · right; split
+        · exact h
+        · simp [h]
+  exact key l [] (Or.inl hmem)
+
+theorem validateBasicList_each (s : State) (msgs : List Msg) (h : Msg.validateBasicList s msgs = .ok ()) :
+    ∀ m ∈ msgs, Msg.validateBasic s m = .ok () := by
+  induction msgs with
+  | nil => intro m hm; simp at hm
+  | cons x xs ih =>
+    simp only [Msg.validateBasicList, bind_eq_ok] at h
+    obtain ⟨_, h1, h2⟩ := h
+    intro m hm
+    rcases List.mem_cons.mp hm with he | hm'
+    · subst he; exact h1
+    · exact ih h2 m hm'
+
+/-- relation used for the lifting: a path of elementary steps that keeps `GrantsOK` -/
+def FineG (a b : State) : Prop := FinePath a b
+
+theorem deliverTx_fine (wall : Nat) (s : State) (tx : Tx) (hg : GrantsOK s) :
+    FinePath s (deliverTx Facts.anteOrder wall s tx).1 ∧ GrantsOK (deliverTx Facts.anteOrder wall s tx).1 := by
+  unfold deliverTx
+  split
+  · exact ⟨.refl _, hg⟩
+  · split
+    · exact ⟨.refl _, hg⟩
+    · rename_i hvb
+      split
+      · exact ⟨.refl _, hg⟩
+      · rename_i s1 h1
+        -- the ante part
+        have hante : FinePath s s1 ∧ s1.grants = s.grants :=
+          ante_rel (fun a b => FinePath a b ∧ b.grants = a.grants) (fun a => ⟨.refl a, rfl⟩)
+            (fun a b c h1 h2 => ⟨h1.1.trans h2.1, h2.2.trans h1.2⟩) tx
+            (fun a b he => ⟨.single (.ante tx he), anteEffect_grants a b tx he⟩) _ _ s s1 h1
+        have hg1 : GrantsOK s1 := by intro g e k hm; rw [hante.2] at hm; exact hg g e k hm
+        split
+        · exact ⟨hante.1, hg1⟩
+        · rename_i s2 rs h2
+          have husers := ante_signers_user .deliver s s1 tx h1
+          have hsigned : ∀ m ∈ tx.msgs, m.SignedOK := by
+            intro m hm
+            obtain ⟨a, ha⟩ := validateBasic_signer s m (validateBasicList_each s tx.msgs hvb m hm)
+            have := List.all_eq_true.mp husers a (mem_required tx m a hm ha)
+            exact ⟨a, ha, Or.inl (by simpa [isUserAddr] using this)⟩
+          obtain ⟨hp, hg2⟩ := runMsgs_signed wall FinePath .refl (fun _ _ _ => FinePath.trans)
+            (fun a m b r hl hga hsa hx => ⟨.single (.leaf wall m r hl hga hsa hx), leaf_grantsOK wall a b m r hl hga hsa hx⟩)
+            tx.msgs s1 s2 rs hg1 hsigned h2
+          exact ⟨hante.1.trans hp, hg2⟩
+
+theorem checkTx_fine (s : State) (tx : Tx) (hg : GrantsOK s) :
+    FinePath s (checkTx Facts.anteOrder s tx).1 ∧ GrantsOK (checkTx Facts.anteOrder s tx).1 := by
+  unfold checkTx
+  split
+  · exact ⟨.refl _, hg⟩
+  · split
+    · exact ⟨.refl _, hg⟩
+    · split
+      · exact ⟨.refl _, hg⟩
+      · rename_i s1 h1
+        have hante : FinePath s s1 ∧ s1.grants = s.grants :=
+          ante_rel (fun a b => FinePath a b ∧ b.grants = a.grants) (fun a => ⟨.refl a, rfl⟩)
+            (fun a b c h1 h2 => ⟨h1.1.trans h2.1, h2.2.trans h1.2⟩) tx
+            (fun a b he => ⟨.single (.ante tx he), anteEffect_grants a b tx he⟩) _ _ s s1 h1
+        exact ⟨hante.1, by intro g e k hm; rw [hante.2] at hm; exact hg g e k hm⟩
+
+theorem govExec_fine (wall : Nat) (s : State) (m : Msg) (hg : GrantsOK s) :
+    FinePath s (govExec wall s m).1 ∧ GrantsOK (govExec wall s m).1 := by
+  unfold govExec
+  split
+  · exact ⟨.refl _, hg⟩
+  · rename_i hsig
+    have hsig' : m.SignedOK := ⟨Mgov, by simpa using hsig, Or.inr rfl⟩
+    split
+    · rename_i s' r h
+      simp only [handle, bind_eq_ok] at h
+      obtain ⟨_, _, h⟩ := h
+      exact exec_signed wall FinePath .refl (fun _ _ _ => FinePath.trans)
+        (fun a m b r hl hga hsa hx => ⟨.single (.leaf wall m r hl hga hsa hx), leaf_grantsOK wall a b m r hl hga hsa hx⟩)
+        m s s' r hg hsig' h
+    · exact ⟨.refl _, hg⟩
 
 /-- `ProcessAcceptedPurchaseOrders` as elementary steps -/
 theorem processAccepted_fine (s0 : State) (q : List Nat) :
@@ -78,13 +242,27 @@ theorem beginStep_fine (s s' : State) (name : String) (h : beginStep s name = .o
 theorem beginBlock_fine (steps : List String) (s s' : State) (h : beginBlock steps s = .ok s') : FinePath s s' :=
   foldlM_rel FinePath .refl (fun _ _ _ => FinePath.trans) beginStep steps (fun a n b hb => beginStep_fine a b n hb) s s' h
 
-/-- every coarse step of the application is a path of elementary steps -/
-theorem chainStep_fine (s s' : State) (h : ChainStep s s') : FinePath s s' := by
+theorem beginBlock_grants (steps : List String) (s s' : State) (h : beginBlock steps s = .ok s') :
+    s'.grants = s.grants := by
+  refine foldlM_rel (fun (a b : State) => b.grants = a.grants) (fun _ => rfl) (fun a b c (h1 : b.grants = a.grants) (h2 : c.grants = b.grants) => h2.trans h1) beginStep steps ?_ s s' h
+  intro a n b hb
+  unfold beginStep at hb
+  split at hb
+  · simp only [bind_eq_ok, pure_eq_ok] at hb; obtain ⟨_, _, rfl⟩ := hb; rfl
+  · simp only [bind_eq_ok, pure_eq_ok] at hb; obtain ⟨_, _, rfl⟩ := hb; rfl
+  · cases hb
+
+/-- every coarse step of the application is a path of elementary steps (and keeps `GrantsOK`) -/
+theorem chainStep_fine (s s' : State) (h : ChainStep s s') (hg : GrantsOK s) : FinePath s s' ∧ GrantsOK s' := by
   cases h with
-  | begin t ht h => exact .cons _ _ _ (.time t ht rfl) (beginBlock_fine _ _ _ h)
-  | deliver wall tx hs => subst hs; exact deliverTx_fine wall s tx _
-  | check tx hs => subst hs; exact checkTx_fine s tx _
-  | gov wall m hs => subst hs; exact govExec_fine wall s m
+  | begin t ht h =>
+    refine ⟨.cons _ _ _ (.time t ht rfl) (beginBlock_fine _ _ _ h), ?_⟩
+    intro g e k hm
+    rw [beginBlock_grants _ _ _ h] at hm
+    exact hg g e k hm
+  | deliver wall tx hs => subst hs; exact deliverTx_fine wall s tx hg
+  | check tx hs => subst hs; exact checkTx_fine s tx hg
+  | gov wall m hs => subst hs; exact govExec_fine wall s m hg
 
 /-- states reached from the genesis state through elementary steps whose source states all
 satisfy the history assumption `Q` -/
@@ -108,10 +286,13 @@ theorem fineReach_path (g : GenCfg) (a b : State) (hp : FinePath a b) :
   | cons a b c hab _ ih => exact fun ha => ih (.step a b ha trivial hab)
 
 /-- without a history assumption every coarsely reachable state is finely reachable -/
-theorem reachable_fine (g : GenCfg) (s : State) (h : Reachable g s) : FineReach g (fun _ => True) s := by
+theorem reachable_fine (g : GenCfg) (s : State) (h : Reachable g s) :
+    FineReach g (fun _ => True) s ∧ GrantsOK s := by
   induction h with
-  | init => exact .init
-  | step s s' _ hs ih => exact fineReach_path g s s' (chainStep_fine s s' hs) ih
+  | init => exact ⟨.init, by intro g e k hm; simp [initState] at hm⟩
+  | step s s' _ hs ih =>
+    obtain ⟨hp, hg'⟩ := chainStep_fine s s' hs ih.2
+    exact ⟨fineReach_path g s s' hp ih.1, hg'⟩
 
 /-- a path of elementary steps whose source states all satisfy `Q` -/
 inductive FinePathQ (Q : State → Prop) : State → State → Prop where
